@@ -103,7 +103,12 @@ Definition recv_ok (dev0 : N) (h : hist) (now : N) (m : msg) (qload allow : bool
   let vnow := now + h_shift h in
   if negb (gate m) then silent_inert o h
   else if m_type m =? MessageTransportType then
-    match m_content m with CTransport (Some _) => true | _ => silent_inert o h end
+    (* an authentic fresh transport message is taken in (the peer's counters move) — in particular after
+       forged messages on the same receiver index, which must be as good as erased; anything else is inert *)
+    match m_content m with
+    | CTransport (Some p) => existsb (N.eqb p) (s_changed o)
+    | _ => silent_inert o h
+    end
   else if m_type m =? MessageCookieReplyType then
     match s_outs o with [] => true | _ => false end &&
     (cookie_authentic h m || silent_inert o h)
